@@ -479,7 +479,7 @@ func genCasts(w *world) string {
 		"allocSites", "List (String × String × String)", allocs)
 	f.list("functions containing the zero literal nodeRef{} (nil pointer; not an allocation site), one entry per occurrence",
 		"zeroRefSites", "List String", zeroRefs)
-	f.comment("")
+	f.b.WriteString("\n")
 	f.comment("Guards.  A guard is only attributed when the cast operand is `<x>.pointer` and the tested tag is `<x>.tag` for the")
 	f.comment("textually identical <x> (directly, or via a local assigned exactly once from `<x>.tag`), and the root variable of <x>")
 	f.comment("(and that local) is not assigned / incremented / address-taken textually between the test and the cast (for a cast in a")
